@@ -298,7 +298,7 @@ def main():
                     if kf:
                         reproduced.add(kf[0].get('id'))
                     else:
-                        halts.append((name, sf[:-4] + '.sx', k, js.get('halted', '')))
+                        halts.append((name, sf[:-4] + '.sx', k, js.get('halted', ''), int(re.search(r'h(\d+)\.sum', sf).group(1))))
         for hi, hf, ln, res in load_results(d):
             pc['steps'] += 1
             tag = res[0] if res else 'empty'
@@ -415,11 +415,23 @@ def main():
     obligations.append(('correspondence: every sampled square commutes on the projection ' + ','.join(P['projection']), corr_ok,
                         '' if corr_ok else f'{len(mism)} mismatching squares, first: {mism[0][4]}'))
 
+    # a halt in a history in which the root clause of a listed finding fired earlier, and which that finding lists
+    # as its consequence (covers=...,live.halt), belongs to that finding
+    def halt_known(h):
+        for k in known_all:
+            if 'live.halt' in k.get('covers', '').split(',') and k.get('id') in active.get((h[0], h[4]), set()):
+                if h[0] == 'scenario:' + k.get('scenario', '?'):
+                    reproduced.add(k.get('id'))
+                cov['halts_known'] = cov.get('halts_known', 0) + 1
+                return True
+        return False
+    halts = [h for h in halts if not halt_known(h)]
+
     # ---- verdict
     nviol = 0
     out_lines = []
     if halts:
-        name, hf, what, why = halts[0]
+        name, hf, what, why, _hi = halts[0]
         rp = os.path.join(V, 'replays', f'{cid}-{seed}-halt.json')
         keep = os.path.join(V, 'replays', f'{cid}-{seed}-halt.sx')
         if os.path.exists(hf):
